@@ -254,6 +254,9 @@ func (e *Env) outcome() *rolloutOutcome {
 // once the rollout is under way (restored from a backup, say): the next sync has to adopt them again.
 var c09OrphanRevisions bool
 
+// c09RevisionCacheLate: after the simulated restart the ControllerRevision cache is still empty at the first sync.
+var c09RevisionCacheLate bool
+
 func runRolloutWithCut(scn *Scn, f Factory, edits []int, midSyncs int, ogStyle int, plan CutPlan, c *vs.Case) (*rolloutOutcome, error) {
 	env, err := NewEnv(scn, f)
 	if err != nil {
@@ -377,7 +380,17 @@ func runRolloutWithCut(scn *Scn, f Factory, edits []int, midSyncs int, ogStyle i
 			env.OGStyle = ogStyle
 			// first recovered sync
 			env.MakeHealthy()
-			env.W.SyncAll()
+			if c09RevisionCacheLate {
+				// nothing makes a restarted metacontroller wait for its ControllerRevision cache: the first
+				// sync may run before that cache has listed anything
+				for _, r := range env.W.ResourceNames() {
+					if r != "controllerrevisions" {
+						env.W.SyncCache(r)
+					}
+				}
+			} else {
+				env.W.SyncAll()
+			}
 			t2 := env.Sync()
 			if t2.Panic != "" {
 				return t2, vs.Violf("C09/panic", "panic after restart: %s", t2.Panic)
@@ -537,6 +550,10 @@ func PropC09(c *vs.Case, f Factory, o RolloutOpts) error {
 	}
 	cur = CutPlan{Sync: ct.s, Req: ct.r, Kind: kind}
 	c.Class("cut:%s", kind)
+	c09RevisionCacheLate = kind == "crash" && !o.Small && c.Prob(1, 3)
+	if c09RevisionCacheLate {
+		c.Class("revision-cache-empty-after-restart")
+	}
 	if base.Mixed[ct.s] {
 		c.NonTrivial()
 		c.Class("cut-in-sync-with-revision-and-child-writes")
